@@ -2173,7 +2173,11 @@ def check_C09(res):
         size = rng.choice([16, 17, 20, 31, 32, 48, 100, 1000, 4096]) if res.tier == 'thorough' else rng.choice([16, 17, 20, 32, 48, 100])
         import struct
         body = bytes(rng.randrange(256) for _ in range(size - 16))
-        return struct.pack('<IHHII', 0x4A424F4C, 16, 1, size, code) + body
+        # the header-size and version fields of an object of unknown type are part of what is skipped: nothing may depend on them
+        # (a declared header size above the declared object size included - the object is skipped by its *object* size)
+        hs = 16 if rng.random() < 0.6 else rng.choice([0, 8, 24, 32, 40, 48, 64, size, size + 4, size + 16, 255, 65535])
+        ver = 1 if rng.random() < 0.7 else rng.choice([0, 2, 3, 7, 65535])
+        return struct.pack('<IHHII', 0x4A424F4C, hs, ver, size, code) + body
     files = []
     expect = []
     per = 40
@@ -2223,7 +2227,7 @@ def check_C09(res):
     res.corr['fillers'] = len(fillers)
     res.oblige('D:file-correspondence', dis == 0, '%d disagreements' % dis)
     res.corr['distinct'] = len(set(files))
-    res.corr['rule'] = 'every filler over {L,O,B,J,x} up to length %d not containing the signature, random longer fillers, unknown-type blocks (reserved, zero and >131 codes, sizes 16..) in front of real objects, %d (filler, object) pairs per hand-assembled level-0 file with container sizes {13,64,1000,131072}' % (maxlen, per)
+    res.corr['rule'] = 'every filler over {L,O,B,J,x} up to length %d not containing the signature, random longer fillers, unknown-type blocks (reserved, zero and >131 codes, sizes 16.., header-size fields 16 / below / above the object size, versions 0..65535) in front of real objects, %d (filler, object) pairs per hand-assembled level-0 file with container sizes {13,64,1000,131072}' % (maxlen, per)
     res.corr['samples'] = [{'file_len': len(f), 'expected_objects': len(e), 'answer': a[:60]} for f, e, a in list(zip(files, expect, r))[:3]]
     for kind, (f, det) in fails.items():
         res.violation('filler', '%s (%s)' % (kind, det), {'class': 'File', 'failure': kind, 'file': f.hex()[:8000]})
